@@ -506,6 +506,22 @@ impl ReferenceProcessor<Arc<AtomicU32>, InsertReferencesResult, InsertReferences
             }
         }
 
+        /* Writes are buffered, so make sure everything has reached the temporary file before
+         * it replaces the original.
+         */
+        if let Err(e) = scratch_file.file().flush().await
+        {
+            task::spawn(async move {
+                error!("[ref: 36] Failed to write to temporary file: {}", e);
+            })
+            .await;
+
+            return Some(InsertReferencesResult {
+                failure: true,
+                num_inserted_references: 0,
+            });
+        }
+
         match async_std::fs::rename(scratch_file.path(), path).await
         {
             Ok(_) =>
